@@ -119,6 +119,8 @@ def indexed_case(rng, extra=()):
     reads = []
     for i in range(rng.randint(3, 8)):
         body = "".join(rng.choice("ACGT") for _ in range(rng.randint(0, 25)))
+        if rng.random() < 0.2:
+            body = ""          # the read is nothing but (a variant of) an adapter: shorter than the longest indexed string when the variant lost a base
         x = rng.random()
         if x < 0.8:
             a = list(rng.choice(seqs))
